@@ -42,7 +42,7 @@ RULE = ("pairs of molecules of 1..40 atoms (sizes mostly 1..14, one case in five
         "half of them; shipped BMIM/BF4/CUR/VTE pairs; restraint lists none/empty/partial/duplicated/complete; deformation "
         "types default or any non-empty subset of {0,1,2} (permuted, repeated; type 2 only when the mobile molecule has >= 2 "
         "atoms); ignore_hydrogens on/off; STEPS_FACTOR 2..20 (budget capped at ~150 passes without improvement); numpy "
-        "seed per case.  Sessions: runs of 4-10 alignments whose mobile molecules have the same number of atoms and "
+        "seed per case.  Sessions: runs of 8-14 alignments whose mobile molecules have the same number of atoms and "
         "different trees, executed back to back in one process.  A case is non-trivial when distinct and the optimiser "
         "ran with at least one accepted proposal.")
 
@@ -299,7 +299,7 @@ def gen_session(rs, length=None):
     """alignments to be executed back to back in one process: the mobile molecules all have n atoms and different trees /
     bond lengths, single-atom moves enabled (plus a few unrelated pairs in between)"""
     n = int(rs.choice([2, 3, 3, 4, 4, 5, 6]))
-    length = length or int(rs.randint(4, 11))
+    length = length or int(rs.randint(8, 15))
     cases = []
     for _ in range(length):
         other = n + int(rs.randint(0, 6))
@@ -326,9 +326,7 @@ def gen_error_case(rs):
         case[big]["bonds"] = []
         case[big]["atoms"] = [[a[0], case[big]["atoms"][0][1], 1] for a in case[big]["atoms"]]
         case["restr"] = []
-        if big == "end":               # the mobile one must stay connected for the error to be the missing bond
-            pass
-        else:
+        if big == "start":             # the mobile one must stay connected for the error to be the missing bond
             case["end"] = gen_molspec(rs, ne, "tree")
     else:
         ns, ne = int(rs.randint(2, 6)), int(rs.randint(6, 10))
@@ -1004,10 +1002,8 @@ def correspondence(ctx):
                         {kk: vv for kk, vv in v.items() if kk != "vel"}) for k, v in c.items()}, limit=3)
     K["impl_seconds"] = round(time.time() - t0, 1)
     # shard by size (<= ~350 kB of terms per coqc process)
-    codes, logs = {}, []
-    order = list(range(len(terms)))
     shards, cur, cur_sz = [], [], 0
-    for i in order:
+    for i in range(len(terms)):
         if cur and cur_sz + len(terms[i]) > 350000:
             shards.append(cur)
             cur, cur_sz = [], 0
@@ -1015,8 +1011,6 @@ def correspondence(ctx):
         cur_sz += len(terms[i])
     if cur:
         shards.append(cur)
-    perm = [i for sh in shards for i in sh]
-    # run_coq_cases shards by count: feed it one batch per size-balanced group
     t1 = time.time()
     codes = run_shards(ctx, terms, shards)
     K["coq_seconds"] = round(time.time() - t1, 1)
@@ -1043,11 +1037,9 @@ def correspondence(ctx):
 
 
 def run_shards(ctx, terms, shards):
-    """lib.run_coq_cases cuts by count; call it with a shard size that keeps every file small, after ordering the
-    terms so that consecutive groups are the size-balanced shards"""
+    """lib.run_coq_cases cuts by COUNT; the cases here differ in size by three orders of magnitude, so the groups are
+    size-balanced and padded with trivially agreeing terms (`0`) to one common length = the runner's shard size"""
     K = ctx.cov["K"]
-    # simplest faithful use of the shared runner: one call, cases ordered, shard = max group length, padding groups
-    # with trivially-agreeing terms so that every group has the same length
     width = max(len(s) for s in shards)
     padded, index = [], []
     for s in shards:
@@ -1067,7 +1059,7 @@ def run_shards(ctx, terms, shards):
 def oracle(ctx, scale):
     rs = ctx.np_rng("S%d" % scale)
     S = ctx.cov["S"]
-    n_sess = ctx.n(24, 200) * scale
+    n_sess = ctx.n(40, 250) * scale
     n_mixed = ctx.n(12, 100) * scale
     sessions = [gen_session(rs) for _ in range(n_sess)]
     for _ in range(n_mixed):        # sessions of unrelated pairs (all sizes, ties, shipped)
